@@ -102,6 +102,11 @@ def run_model(lp, method, rec, rng, seams, other_problem=None):
         rec.noncomp["reference-linprog-raises:" + type(ex).__name__] += 1
         return
     ref_status = REF_STATUS.get(ref.status, "failed")
+    if ref.status == 1:
+        # iteration / time limit on the reference side (HiGHS' interior point can spin on a degenerate LP; the harness bounds every
+        # linprog call): no verdict of the trusted solver to compare with
+        rec.noncomp["reference-linprog-hit-a-limit"] += 1
+        return
     ref_obj = None
     if ref.status == 0:
         ref_obj = sgn * float(ref.fun) + lp["c0"]
@@ -135,6 +140,12 @@ def run_model(lp, method, rec, rng, seams, other_problem=None):
         rec.cmp(1, f"sense:{lp['sense']}")
         got_status = sol.status.value
         rec.paths[f"status:{ref_status}->{got_status}"] += 1
+        if got_status == "max_iterations" and any(getattr(cl.get("result"), "status", 0) == 1 for cl in seams.lp_calls if isinstance(cl, dict)):
+            rec.noncomp["optyx-side-linprog-hit-a-limit"] += 1
+            return
+        if got_status == "max_iterations" and "time" in (sol.message or "").lower():
+            rec.noncomp["optyx-side-linprog-hit-the-time-limit"] += 1
+            return
         if got_status != ref_status:
             bad(f"status-differs:ref={ref_status}:optyx={got_status}", solve=k, ref_message=str(ref.message)[:100], message=sol.message[:100])
             return
